@@ -19,11 +19,57 @@ def impl_batch(case):
     return {"results": out}
 
 
+@guard
+def impl_bulk(case):
+    """volume stage: many sparse near-square graphs (left degrees 1..3), where a maximum matching needs long augmenting paths through
+    vertices that earlier searches explored and abandoned; the worker compares with the independent Kuhn matcher and returns ONLY the
+    graphs on which the implementation's answer is not a matching of that size - those are then judged (Lean model included) like any
+    other case, so this stage can add cases to the judged set but never a verdict of its own"""
+    import random
+    rng = random.Random(case["seed"])
+    sus, sizes = [], {}
+    for _ in range(case["count"]):
+        n = rng.randint(case["lo"], case["hi"])
+        g = flowlib.rand_bip(rng, n, max(1, n + rng.choice([-1, 0, 0, 1])), .5, rng.random() < 0.5, labels="plain" if rng.random() < 0.8 else "random")
+        Y = g["Y"]
+        for x in g["X"]:
+            g["adj"][str(x)] = rng.sample(Y, min(len(Y), rng.randint(1, 3)))
+        sizes[n] = sizes.get(n, 0) + 1
+        try:
+            M = [tuple(p) for p in flowlib.call_mcm(g)]
+            ok = not flowlib.check_matching(g, M)
+        except Exception:
+            ok = False
+        if not ok and len(sus) < 5:
+            sus.append(g)
+    return {"suspects": sus, "sizes": sizes}
+
+
+def run_bulk(R, total, lo, hi, jobs=16):
+    js = [{"seed": R.rng.randrange(10 ** 9), "count": total // jobs, "lo": lo, "hi": hi} for _ in range(jobs)]
+    rs = pmap("c09", "impl_bulk", js, deadline=120.0)
+    sus = []
+    for j, r in zip(js, rs):
+        if isinstance(r, dict) and "suspects" in r:
+            sus += r["suspects"]
+            for n, c in r["sizes"].items():
+                R.count(f"bulk_prefilter:{n}", c)
+        else:
+            R.count("bulk_prefilter_worker_lost")
+    if sus:
+        run_batch(R, sus[:12], "bulk", 60.0)
+
+
 def gen_random(R, count, nmax):
     gs = []
     for t in range(count):
         nx = R.rng.randint(1, nmax)
         ny = R.rng.randint(1, nmax)
+        if t % 50 == 17:
+            nx = 0 if R.rng.random() < 0.5 else nx       # one side may be empty (only isolated vertices on the other): the matching is empty
+            ny = 0 if nx else ny
+        if t % 3 == 0:
+            nx, ny = R.rng.randint(max(1, nmax - 3), nmax), R.rng.randint(max(1, nmax - 3), nmax)      # the larger graphs more often
         dens = R.rng.choice([0.1, 0.3, 0.6, 0.9])
         g = flowlib.rand_bip(R.rng, nx, ny, dens, R.rng.random() < 0.5, labels="plain" if R.rng.random() < 0.7 else "random")
         if t % 4 == 3 and len(g["Y"]) >= 2:
@@ -195,12 +241,15 @@ def run_helper_glue(R, which, count, jobs=4):
 def run(R):
     R.rule = ("random bipartite graphs up to 7+7 (quick) / 10+10 (thorough) vertices at densities .1/.3/.6/.9, directed-from-left and "
               "undirected encodings, isolated vertices on both sides, unequal sides, plain and arbitrary labels; thorough adds ALL graphs "
-              "with up to 3+3 vertices in both encodings. Non-trivial = maximum matching size >= 2 or an isolated left vertex.")
+              "with up to 3+3 vertices in both encodings. A volume stage (48000 / 160000 sparse near-square graphs with 5..12 vertices a side, "
+              "left degrees 1..3) is pre-filtered in the workers with the independent Kuhn matcher; only graphs whose answer is not a matching of "
+              "that size join the judged set (counted as bulk_prefilter:<n>, not as cases). Non-trivial = maximum matching size >= 2 or an isolated left vertex.")
     R.assumptions = ["independent augmenting-path (Kuhn) matcher is the reference for the maximum size",
                      "Koenig cover computed by the harness from the implementation's matching is only a certificate: it is checked by the Lean koenigCertOk"]
     for c in corpus():
         run_batch(R, [c["graph"]], "corpus", 10.0)
     run_batch(R, gen_random(R, 5000 if R.thorough else 1600, 10 if R.thorough else 7), "random", 120.0)
+    run_bulk(R, 160000 if R.thorough else 48000, 5, 12)
     if R.thorough:
         R.exhaustive = True
         run_batch(R, list(gen_exhaustive()), "exhaustive", 300.0)
